@@ -283,7 +283,16 @@ fn cmd_readcheck(path: &str) -> i32 {
 pub fn main() {
     let a: Vec<String> = env::args().collect();
     let rc = match a.get(1).map(|s| s.as_str()) {
-        Some("map") => cmd_map(&a[2]),
+        Some("map") => {
+            // further arguments: files mapped first, on the same thread (what the mapping of one file leaves behind must not show
+            // in the next: the block driver maps every file of a run on its one dispatcher thread)
+            for w in a.iter().skip(3) {
+                if let Ok(f) = File::open(w) {
+                    let _ = map_extents(&f).map(|m| m.map(merge_extents));
+                }
+            }
+            cmd_map(&a[2])
+        }
         Some("merge-exhaustive") => cmd_merge_exhaustive(a[2].parse().unwrap()),
         Some("merge-exhaustive-flags") => cmd_merge_exhaustive_flags(a[2].parse().unwrap()),
         Some("merge-exhaustive-overlap") => cmd_merge_exhaustive_overlap(a[2].parse().unwrap(), a[3].parse().unwrap()),
